@@ -90,7 +90,7 @@ def generate(seed: int, tier: str) -> Dict[str, Any]:
     if kind == "merge":
         workers = []
         for w in range(r.randint(1, 4)):
-            items = [[r.choice(KEYS), next(val)] for _ in range(r.randint(0, 4))]
+            items = [[r.choice(KEYS), (None if r.chance(0.1) else next(val))] for _ in range(r.randint(0, 4))]
             workers.append({"id": r.choice([0, 1, 2, "x", "y"]) if r.chance(0.5) else w, "items": items})
         ids = [w["id"] for w in workers]
         if any(isinstance(i, str) for i in ids):
@@ -98,6 +98,10 @@ def generate(seed: int, tier: str) -> Dict[str, Any]:
                 w["id"] = str(w["id"])
         p["workers"] = workers
         p["perm_seed"] = int(r.u64() % 1000)
+        # the cache everything is merged into: a plain map, or one of the engine's recency-ordered containers, possibly holding
+        # entries already (conflicts with the workers' keys included)
+        p["target"] = r.choice(["plain", "lrucache", "threadsafe", "detlru"])
+        p["target_pre"] = [[r.choice(KEYS), next(val)] for _ in range(r.randint(0, 2))]
         p["on_conflict"] = "first_wins"
         return p
     ops = []
@@ -618,9 +622,28 @@ def _merge(p: Dict[str, Any], stats: Dict[str, int]) -> List[Dict[str, Any]]:
         w = list(p["workers"])
         r.shuffle(w)
         perms.append(w)
+    ids = [w["id"] for w in p["workers"]]
+    dup_ids = len(set(ids)) != len(ids)
+    kind = p.get("target", "plain")
+
+    def mk_target():
+        if kind == "lrucache":
+            return LRUCache(max_entries=64, ttl_s=0)
+        if kind == "threadsafe":
+            return ThreadSafeCache(LRUCache(max_entries=64, ttl_s=0))
+        if kind == "detlru":
+            return DeterministicLRU(64)
+        return _Plain()
+
+    def items_of(t):
+        return [(k, v) for k, v in t.items()]
+
     for ws in perms:
         stats["evaluations"] = stats.get("evaluations", 0) + 1
-        target = _Plain()
+        target = mk_target()
+        for k, v in p.get("target_pre") or []:
+            target.put(k, v)
+        before = items_of(target)
         wc = []
         for w in ws:
             c = _Plain()
@@ -628,9 +651,24 @@ def _merge(p: Dict[str, Any], stats: Dict[str, int]) -> List[Dict[str, Any]]:
                 c.put(k, v)
             wc.append((w["id"], c))
         merge_caches_deterministic(target, wc, worker_order_key=lambda x: x, key_order_key=lambda k: k, on_conflict=p["on_conflict"])
-        outs.append(target.items())
-    ids = [w["id"] for w in p["workers"]]
-    dup_ids = len(set(ids)) != len(ids)
+        outs.append(items_of(target))
+        if not dup_ids and p["on_conflict"] == "first_wins":
+            # reference: entries already in the target stay where and what they are; new keys are appended worker by worker (sorted
+            # worker key), key by key (sorted key), the first value offered for a key wins - a cached None included
+            want = list(before)
+            have = {k for k, _ in want}
+            for w in sorted(ws, key=lambda w: w["id"]):
+                last: Dict[Any, Any] = {}
+                for k, v in w["items"]:
+                    last[k] = v
+                for k in sorted(last):
+                    if k not in have:
+                        have.add(k)
+                        want.append((k, last[k]))
+            if outs[-1] != want:
+                viol.append({"cls": "merge", "sig": "merge:not-the-documented-merge:%s" % kind,
+                             "detail": "target(%s) pre %s, workers %s: merged %s, documented order/values %s" % (kind, before, [(w["id"], w["items"]) for w in ws], outs[-1], want)})
+                break
     stats["merge_dup_worker_ids"] = stats.get("merge_dup_worker_ids", 0) + int(dup_ids)
     if not dup_ids and any(o != outs[0] for o in outs[1:]):
         viol.append({"cls": "merge", "sig": "merge:order-dependent", "detail": "merged caches differ across worker list orders: %s" % (outs,)})
